@@ -264,7 +264,7 @@ func (w *World) enabled() []Action {
 	// 1b. cluster-map pushes on the streaming config responses
 	for _, sub := range w.cl.cfgSubs {
 		sub := sub
-		if sub.closed || sub.sentRev == sub.bucket.rev || w.cl.deadTags[sub.tag] {
+		if sub.closed || sub.sentRev == sub.bucket.revKey() || w.cl.deadTags[sub.tag] {
 			continue
 		}
 		acts = append(acts, Action{ID: fmt.Sprintf("cfgpush|%s.n%d", sub.tag, sub.node), W: cfg.W.Reply, Do: func() { w.cl.pushConfig(sub) }})
